@@ -20,6 +20,13 @@ PROPS["C19"] = {
     "assumptions": ["the registered revisions are the 25 bound in Model/Checks.check_dictionary (all_bound obligation)"],
 }
 
+PROPS["C04"] = {
+    "streams": [{"name": "c04", "n_quick": 800, "n_thorough": 20000}],
+    "level_text": "Theorems C04_* (Properties/C04.v), for ANY check set with opaque check functions: validate_checks accepts exactly the well-formed sets (unique ids, level baseline/restricted, non-empty strictly increasing revisions none unset or 'latest', overrides only by restricted checks and only of absent or baseline ids); for well-formed sets with a single major, resolve = expected as an equality of (id, revision) lists - per check the revision of greatest minimum version <= V, baseline block first in byte-wise id order, restricted = non-overridden baseline + restricted, privileged = nothing; 'latest' and any newer version behave as the newest registered one and never as an empty policy. Tied to the code by running random valid and malformed marker check sets through the real policy.NewEvaluator and EvaluatePod at boundary versions and evaluating P04 and the model on the observed marker sequences in Coq.",
+    "level_note": "Trusted: Coq kernel; Model/Registry.v as model of policy/registry.go (correspondence by sampling: ~1200 check sets quick); the hypothesis majors_one (R1 in DESIGN.md: the real populate/inflateVersions loops do not terminate for a MinimumVersion whose major is not 1, so such sets are never generated). No axioms.",
+    "assumptions": ["every MinimumVersion has major 1 (R1)"],
+}
+
 # properties not yet claimed (kept current as checks are added)
 NOT_APPLICABLE = [
     {"property_id": p, "reason": "check under construction in this session: model/theorems not yet committed (see DESIGN.md section 7 for the planned statement)"}
